@@ -13,6 +13,30 @@ BASELINE_OFF = (
 
 # id -> (category, technique, level text, level note, design ref, engine)
 CHECKS = {
+    "C01": (
+        "exploration",
+        "bounded program x input enumeration: every valid spec body of the grammar (real generator) x every value the reference semantics round-trips; oracle = generated serialize/deserialize round trip only",
+        "All M9-valid bodies of G(2) u G_red(3) (quick) / + G(3), G_red(4) (thorough) in struct and packet hosts plus a corpus, each with its complete bounded value domain; the round trip, exact consumption and byte_size at every level are checked on generated code alone.",
+        "Domain membership (wire-unambiguous, non-lossy) is decided by reference semantics M10; specs beyond the node budget and values outside the domains are not explored.",
+        "DESIGN.md section 6 C01",
+        "E3",
+    ),
+    "C02": (
+        "exploration",
+        "bounded program x input enumeration with a differential oracle: generated serializer bytes vs independent reference interpreter of the XML (M10), both entry modes; boolean-attribute spelling variants regenerated and compared",
+        "Every valid body x full value domain x both entry sanitisation modes byte-exact against M10; packets' family/action/write; every program regenerated with explicit/mixed-case boolean spellings.",
+        "M10 is our reading of the eo-protocol rules (Appendix C); degenerate shapes excluded as the property states.",
+        "DESIGN.md section 6 C02",
+        "E3",
+    ),
+    "C03": (
+        "exploration",
+        "bounded program x input enumeration: every valid spec x every byte string up to a length bound + all 1-deviations of valid serializations, generated deserializer vs reference reading rules (M10 on M3)",
+        "All byte strings over a 7-symbol alphabet up to length 2/3 (5-symbol up to 3/4) and every prefix/substitution/insertion/suffix deviation of valid serializations, under both entry modes and a non-initial reader: value tree, nested byte_size, position, mode, ValueError-only, termination.",
+        "Bounded exhaustive only; the 'uniformly random bytes' clause is outside this family.",
+        "DESIGN.md section 6 C03",
+        "E3",
+    ),
     "C04": (
         "model_checking",
         "explicit enumeration of all write histories up to depth 3/4 x matching read histories on the real EoWriter/EoReader (depth-bounded E1)",
